@@ -29,6 +29,12 @@
 #include "opentelemetry/sdk/trace/exporter.h"
 #include "opentelemetry/sdk/trace/span_data.h"
 #include "opentelemetry/sdk/common/global_log_handler.h"
+#include "opentelemetry/sdk/logs/logger_provider.h"
+#include "opentelemetry/sdk/logs/processor.h"
+#include "opentelemetry/sdk/metrics/meter_provider.h"
+#include "opentelemetry/sdk/metrics/metric_reader.h"
+#include "opentelemetry/sdk/trace/processor.h"
+#include "opentelemetry/sdk/trace/tracer_provider.h"
 
 using namespace verif;
 namespace sdktrace = opentelemetry::sdk::trace;
@@ -263,6 +269,141 @@ void run_batch(const std::vector<std::vector<Tok>> &secs, bool is_span, Out &o)
   o.tag("||");
   o.add(S.log_line());
 }
+
+// ------------------------------------------------------------------------------------------------ COMPOSE
+// case  COMPOSE <trace|logs|metrics> | c <flushmask> <shutmask> | c .. | o <f|h> ..
+//   one "c" section per child (a SpanProcessor / LogRecordProcessor / MetricReader whose k-th ForceFlush resp. Shutdown
+//   call returns bit k of the mask, k counted from 0 and taken modulo 16); "o" = the provider-level calls, in order
+//   (f = ForceFlush, h = Shutdown); the provider is destroyed at the end ("d").  Everything is sequential.
+//   output (no event trace):  for each provider call  "f"|"h"|"d"  then for every child call made during it
+//   "<child> f|h <result>", then for f/h "= <provider result>".
+struct ChildScript
+{
+  unsigned long fm = 0, hm = 0;
+  int nf = 0, nh = 0;
+};
+struct ComposeLog
+{
+  std::vector<ChildScript> ch;
+  Out *o = nullptr;
+  bool flush(int i)
+  {
+    bool r = (ch[i].fm >> (ch[i].nf++ % 16)) & 1;
+    o->num(i).tag("f").num(r);
+    return r;
+  }
+  bool shut(int i)
+  {
+    bool r = (ch[i].hm >> (ch[i].nh++ % 16)) & 1;
+    o->num(i).tag("h").num(r);
+    return r;
+  }
+};
+struct ChildSpanProc : sdktrace::SpanProcessor
+{
+  ComposeLog &L;
+  int i;
+  ChildSpanProc(ComposeLog &l, int idx) : L(l), i(idx) {}
+  std::unique_ptr<sdktrace::Recordable> MakeRecordable() noexcept override { return std::unique_ptr<sdktrace::Recordable>(new sdktrace::SpanData()); }
+  void OnStart(sdktrace::Recordable &, const opentelemetry::trace::SpanContext &) noexcept override {}
+  void OnEnd(std::unique_ptr<sdktrace::Recordable> &&) noexcept override {}
+  bool ForceFlush(std::chrono::microseconds) noexcept override { return L.flush(i); }
+  bool Shutdown(std::chrono::microseconds) noexcept override { return L.shut(i); }
+};
+struct ChildLogProc : sdklogs::LogRecordProcessor
+{
+  ComposeLog &L;
+  int i;
+  ChildLogProc(ComposeLog &l, int idx) : L(l), i(idx) {}
+  std::unique_ptr<sdklogs::Recordable> MakeRecordable() noexcept override { return std::unique_ptr<sdklogs::Recordable>(new sdklogs::ReadWriteLogRecord()); }
+  void OnEmit(std::unique_ptr<sdklogs::Recordable> &&) noexcept override {}
+  bool ForceFlush(std::chrono::microseconds) noexcept override { return L.flush(i); }
+  bool Shutdown(std::chrono::microseconds) noexcept override { return L.shut(i); }
+};
+struct ChildReader : opentelemetry::sdk::metrics::MetricReader
+{
+  ComposeLog &L;
+  int i;
+  ChildReader(ComposeLog &l, int idx) : L(l), i(idx) {}
+  opentelemetry::sdk::metrics::AggregationTemporality GetAggregationTemporality(
+      opentelemetry::sdk::metrics::InstrumentType) const noexcept override
+  {
+    return opentelemetry::sdk::metrics::AggregationTemporality::kCumulative;
+  }
+  bool OnForceFlush(std::chrono::microseconds) noexcept override { return L.flush(i); }
+  bool OnShutDown(std::chrono::microseconds) noexcept override { return L.shut(i); }
+};
+
+void run_compose(const std::vector<std::vector<Tok>> &secs, Out &o)
+{
+  ComposeLog L;
+  L.o = &o;
+  std::vector<Tok> ops;
+  for (size_t i = 1; i < secs.size(); i++)
+  {
+    if (secs[i].empty()) continue;
+    if (secs[i][0].is_tag("c") && secs[i].size() >= 3)
+    {
+      ChildScript c;
+      c.fm = (unsigned long)secs[i][1].as_ull();
+      c.hm = (unsigned long)secs[i][2].as_ull();
+      L.ch.push_back(c);
+    }
+    else if (secs[i][0].is_tag("o"))
+      ops.assign(secs[i].begin() + 1, secs[i].end());
+  }
+  const Tok &kind = secs[0][1];
+  int n           = (int)L.ch.size();
+  std::function<bool()> do_flush, do_shut;
+  std::function<void()> do_destroy;
+  std::unique_ptr<sdktrace::TracerProvider> tp;
+  std::unique_ptr<sdklogs::LoggerProvider> lp;
+  std::unique_ptr<opentelemetry::sdk::metrics::MeterProvider> mp;
+  if (kind.is_tag("trace"))
+  {
+    std::vector<std::unique_ptr<sdktrace::SpanProcessor>> v;
+    for (int i = 0; i < n; i++) v.emplace_back(new ChildSpanProc(L, i));
+    tp.reset(new sdktrace::TracerProvider(std::move(v)));
+    do_flush   = [&] { return tp->ForceFlush(); };
+    do_shut    = [&] { return tp->Shutdown(); };
+    do_destroy = [&] { tp.reset(); };
+  }
+  else if (kind.is_tag("logs"))
+  {
+    std::vector<std::unique_ptr<sdklogs::LogRecordProcessor>> v;
+    for (int i = 0; i < n; i++) v.emplace_back(new ChildLogProc(L, i));
+    lp.reset(new sdklogs::LoggerProvider(std::move(v)));
+    do_flush   = [&] { return lp->ForceFlush(); };
+    do_shut    = [&] { return lp->Shutdown(); };
+    do_destroy = [&] { lp.reset(); };
+  }
+  else
+  {
+    mp.reset(new opentelemetry::sdk::metrics::MeterProvider());
+    for (int i = 0; i < n; i++) mp->AddMetricReader(std::shared_ptr<opentelemetry::sdk::metrics::MetricReader>(new ChildReader(L, i)));
+    do_flush   = [&] { return mp->ForceFlush(); };
+    do_shut    = [&] { return mp->Shutdown(); };
+    do_destroy = [&] { mp.reset(); };
+  }
+  for (auto &t : ops)
+  {
+    if (t.is_tag("f"))
+    {
+      o.tag("f");
+      bool r = do_flush();
+      o.tag("=").num(r);
+    }
+    else if (t.is_tag("h"))
+    {
+      o.tag("h");
+      bool r = do_shut();
+      o.tag("=").num(r);
+    }
+  }
+  o.tag("d");
+  do_destroy();
+  o.tag("||");
+}
 }  // namespace
 
 int main(int argc, char **argv)
@@ -271,6 +412,11 @@ int main(int argc, char **argv)
   opentelemetry::sdk::common::internal_log::GlobalLogHandler::SetLogLevel(opentelemetry::sdk::common::internal_log::LogLevel::None);
   return run_cases_forked(argc, argv, [](const std::vector<Tok> &t, Out &o) {
     auto secs = split_toks(t, "|");
+    if (t.size() >= 2 && t[0].is_tag("COMPOSE") && secs[0].size() >= 2)
+    {
+      run_compose(secs, o);
+      return;
+    }
     if (t.size() < 7 || !t[0].is_tag("BATCH") || secs[0].size() < 7)
     {
       o.tag("BADCASE");
